@@ -268,3 +268,88 @@ func c06EmptyItemStart(x *X) {
 	x.Outcome(tree.Hash64(want))
 	x.Sample(fmt.Sprintf("%q -> %s", in, want))
 }
+
+// ---- inline link tails (spec 6.3) -------------------------------------------------------
+
+var spLinkTail = spaces.Space{Name: "X-linktail", Doc: "what follows a link text: destinations (bare, in angle brackets), titles in three quoting styles, parentheses, backslashes, white space, line endings",
+	Tokens: []string{"<", ">", "(", ")", "\\", "\"", "'", " ", "\n", "b", "\t"}, Prefix: "[a](", Suffix: "\n"}
+
+func init() { spaces.All = append(spaces.All, spLinkTail) }
+
+// c06LinkTailDriver: "[a](" + s. The reference (ref.InlineLinkTailAt, a
+// transcription of the definitions of link destination, link title and inline
+// link, self-tested on the spec's link examples) says whether the paragraph
+// begins with an inline link, where it ends and what its destination and title
+// are; the tree must say the same.
+func c06LinkTailDriver(x *X, in []byte) {
+	doc := string(in)
+	if r := rawParagraphOK(doc); r != "" {
+		x.Count("linktail_skipped: " + r)
+		return
+	}
+	for _, v := range append([][]byte{in}, eolVariants(in)...) {
+		c06LinkTailOne(x, v)
+	}
+}
+
+func c06LinkTailOne(x *X, in []byte) {
+	doc := string(in)
+	want, wantOK := ref.InlineLinkTailAt(doc, 3)
+	blocks, _ := cm.Parse(clone(in))
+	x.Validated()
+	if len(blocks) != 1 || blocks[0].Kind() != cm.ParagraphKind || blocks[0].StartOffset != 0 {
+		x.Fail("linktail-not-one-paragraph", "link-tail-grammar", in, "%q has no blank line and no line that starts a block, but parses to %d root blocks (first kind %v)", doc, len(blocks), kindOfFirst(blocks))
+		return
+	}
+	rb := blocks[0]
+	var link *cm.Inline
+	if rb.ChildCount() > 0 {
+		if c := rb.Child(0).Inline(); c != nil && c.Kind() == cm.LinkKind && c.Span().Start == 0 {
+			link = c
+		}
+	}
+	if (link != nil) != wantOK {
+		x.Fail("inline-link-recognition", "link-tail-grammar", in, "%q: the tree begins with an inline link: %v; the grammar of spec 6.3 says: %v (%+v)", doc, link != nil, wantOK, want)
+		return
+	}
+	if link == nil {
+		x.Outcome(0)
+		x.Sample(fmt.Sprintf("%q -> no link", doc))
+		return
+	}
+	gotDest, gotTitle, gotHasTitle := "", "", false
+	if d := link.LinkDestination(); d != nil {
+		gotDest = d.Text(rb.Source)
+	}
+	if t := link.LinkTitle(); t != nil {
+		gotTitle, gotHasTitle = t.Text(rb.Source), true
+	}
+	wantTitle := want.Title
+	if strings.ContainsAny(wantTitle, "\r\n") {
+		// continuation lines of a title lose their leading white space only through
+		// the paragraph's own line handling; compare modulo that
+		wantTitle, gotTitle = squeezeTitle(wantTitle), squeezeTitle(gotTitle)
+	}
+	if link.Span().End != want.End || gotDest != want.Dest || gotHasTitle != want.HasTitle || gotTitle != wantTitle {
+		x.Fail("inline-link-parts", "link-tail-grammar", in, "%q: tree has a link ending at %d with destination %q, title %q (present=%v); the grammar of spec 6.3 gives end %d, destination %q, title %q (present=%v)",
+			doc, link.Span().End, gotDest, gotTitle, gotHasTitle, want.End, want.Dest, wantTitle, want.HasTitle)
+		return
+	}
+	x.Nontrivial()
+	if want.HasTitle {
+		x.Count("links_with_title")
+	}
+	x.Outcome(tree.Hash64(fmt.Sprintf("%+v", want)))
+	x.Sample(fmt.Sprintf("%q -> %+v", doc, want))
+}
+
+// squeezeTitle removes the white space around line endings inside a title.
+func squeezeTitle(s string) string {
+	ls := strings.FieldsFunc(s, func(r rune) bool { return r == '\n' || r == '\r' })
+	for i := range ls {
+		if i > 0 {
+			ls[i] = strings.TrimLeft(ls[i], " \t")
+		}
+	}
+	return strings.Join(ls, "\n")
+}
